@@ -334,6 +334,27 @@ SUSP_GOALS = {
                                      {"a": "Suspend", "s": "ROOT", "u": "u1", "on": True}, _pub("s2", "g1", "c2"), _pub("s2", "p12", "c2"),
                                      {"a": "Suspend", "s": "ROOT", "u": "u1", "on": False}, _pub("s2", "g1"), _pub("s2", "p12")]),
 }
+# a reader without delete permission asks for a HARD delete (silently degrades to soft: nobody else's view changes)   C04
+HIST_GOALS = {
+    "hard_delete_by_non_deleter": ('st.topics["g1"].exists /\\ st.topics["g1"].seq >= 2 /\\ st.subs["g1"]["u2"].st = "live" /\\ "R" \\in Eff(st.subs["g1"]["u2"]) '
+                                   '/\\ "D" \\notin Eff(st.subs["g1"]["u2"]) /\\ "g1" \\in M(st.sess["s2"].subs) /\\ "g1" \\in M(st.sess["s1"].subs)',
+                                   [{"a": "DelMsg", "s": "s2", "t": "g1", "ranges": [[1, 0]], "hard": True, "chan": False},
+                                    {"a": "Get", "s": "s1", "t": "g1", "what": "data", "since": 0, "before": 0, "limit": 0, "chan": False},
+                                    {"a": "Get", "s": "s1", "t": "g1", "what": "del", "since": 0, "before": 0, "limit": 0, "chan": False},
+                                    {"a": "Get", "s": "s2", "t": "g1", "what": "data", "since": 0, "before": 0, "limit": 0, "chan": False},
+                                    {"a": "Get", "s": "s2", "t": "g1", "what": "del", "since": 0, "before": 0, "limit": 0, "chan": False},
+                                    {"a": "DelMsg", "s": "s1", "t": "g1", "ranges": [[2, 0]], "hard": True, "chan": False},
+                                    {"a": "Get", "s": "s2", "t": "g1", "what": "data", "since": 0, "before": 0, "limit": 0, "chan": False}]),
+}
+# a root session attached on behalf of a reader receives what that reader would (C02)
+OBO_PUB_GOALS = {
+    "obo_reader_attached": ('st.topics["g1"].exists /\\ "g1" \\in M(st.sess["s1"].subs) /\\ st.subs["g1"]["u2"].st = "live" /\\ "R" \\in Eff(st.subs["g1"]["u2"])',
+                            [{"a": "Sub", "s": "ROOT", "t": "g1", "mode": ["-"], "chan": False, "bg": False, "obo": "u2"},
+                             {"a": "Pub", "s": "s1", "t": "g1", "c": "c1", "noecho": False, "chan": False},
+                             {"a": "Pub", "s": "ROOT", "t": "g1", "c": "c2", "noecho": False, "chan": False, "obo": "u2"},
+                             {"a": "Leave", "s": "ROOT", "t": "g1", "unsub": False, "chan": False, "obo": "u2"},
+                             {"a": "Pub", "s": "s1", "t": "g1", "c": "c1", "noecho": False, "chan": False}]),
+}
 # history and deletions requested by root on behalf of a user whose own soft deletions exist (C04); "ROOT" = the root session
 OBO_GOALS = {
     "obo_history_after_soft_deletes": ('st.topics["g1"].exists /\\ st.topics["g1"].seq >= 3 /\\ st.subs["g1"]["u2"].st = "live" /\\ "R" \\in Eff(st.subs["g1"]["u2"]) '
@@ -349,7 +370,7 @@ OBO_GOALS = {
 }
 
 
-def goal_behaviours(ctx, users, sess, topics, names=None, maxsubs=3, marks=False, perms=False, suspend_root=None, obo_root=None):
+def goal_behaviours(ctx, users, sess, topics, names=None, maxsubs=3, marks=False, perms=False, suspend_root=None, obo_root=None, hist=False, obo_pub_root=None):
     import concurrent.futures
     goals = dict(GOALS)
     p2p = "p12" in topics
@@ -362,6 +383,11 @@ def goal_behaviours(ctx, users, sess, topics, names=None, maxsubs=3, marks=False
     if obo_root:
         for k, (e, tail) in OBO_GOALS.items():
             goals[k] = (e, json.loads(json.dumps(tail).replace('"ROOT"', json.dumps(obo_root))))
+    if hist:
+        goals.update(HIST_GOALS)
+    if obo_pub_root:
+        for k, (e, tail) in OBO_PUB_GOALS.items():
+            goals[k] = (e, json.loads(json.dumps(tail).replace('"ROOT"', json.dumps(obo_pub_root))))
     if suspend_root:
         for k, (e, tail) in SUSP_GOALS.items():
             if "p12" in e and not p2p:
@@ -372,7 +398,7 @@ def goal_behaviours(ctx, users, sess, topics, names=None, maxsubs=3, marks=False
     import re as _re
     def _applies(nm):
         txt = goals[nm][0] + json.dumps(goals[nm][1])
-        return all(x in users for x in _re.findall(r'"(u\d+)"', txt)) and all(x in sess or x in (suspend_root, obo_root) for x in _re.findall(r'"(s\d+)"', txt))
+        return all(x in users for x in _re.findall(r'"(u\d+)"', txt)) and all(x in sess or x in (suspend_root, obo_root, obo_pub_root) for x in _re.findall(r'"(s\d+)"', txt))
     names = [nm for nm in names if _applies(nm)]
     consts = mc_consts(users, sess, topics, DEV_BUILT, ["-", "N", "JR", "JRS", "JRA", "JRASO"], ["-", "N", "JR", "JRS", "JRAS", "JRASO"],
                        ["NewGrp", "Sub", "Leave", "SetSelf", "SetOther", "DelSub", "DelTopic", "Unload"], [], maxsubs=maxsubs)
@@ -386,7 +412,7 @@ def goal_behaviours(ctx, users, sess, topics, names=None, maxsubs=3, marks=False
     def one(name):
         expr, tail = goals[name]
         mod = "Goal_" + name
-        cs = consts_obo if name in OBO_GOALS else consts_susp if name in SUSP_GOALS else consts_p2p if name in P2P_GOALS else consts_marks if name in MARK_GOALS else consts_perms if name in PERM_GOALS else consts
+        cs = consts_obo if name in OBO_GOALS or name in HIST_GOALS else consts_susp if name in OBO_PUB_GOALS else consts_susp if name in SUSP_GOALS else consts_p2p if name in P2P_GOALS else consts_marks if name in MARK_GOALS else consts_perms if name in PERM_GOALS else consts
         defs = "\n".join("c_%s == %s" % (k, v) for k, v in cs.items())
         with open(os.path.join(ctx.specdir, mod + ".tla"), "w") as fh:
             fh.write("---- MODULE %s ----\nEXTENDS TopicCore_MC\n%s\nNotGoal == ~(%s)\n====\n" % (mod, defs, expr))
